@@ -155,7 +155,7 @@ Qed.
 Lemma xreply_ok_wser n ss : forall slot nm r, xreply_ok ss slot nm (wser n r) = xreply_ok ss slot nm r.
 Proof.
   induction ss as [|[sv|] rest IH]; intros slot nm r; cbn [xreply_ok]; [reflexivity| |apply IH].
-  destruct (ci_eq nm (s_name sv)); [reflexivity|apply IH].
+  destruct (s_conf sv && ci_eq nm (s_name sv)); [reflexivity|apply IH].
 Qed.
 
 Lemma rule_matches_wser n ss ru r : rule_matches ss ru (wser n r) = rule_matches ss ru r.
